@@ -249,8 +249,12 @@ def nontrivial(case, impl):
 
 
 def _sweep():
+    """remove temp directories of harness processes that are gone (never those of a live process:
+    another check may be running concurrently)"""
     for d in glob.glob(os.path.join(tempfile.gettempdir(), "verif-c17-*")):
-        shutil.rmtree(d, ignore_errors=True)
+        parts = os.path.basename(d).split("-")
+        if len(parts) >= 4 and parts[2].isdigit() and not os.path.exists(f"/proc/{parts[2]}"):
+            shutil.rmtree(d, ignore_errors=True)
 
 
 def run(ctx):
